@@ -12,25 +12,25 @@ Import ListNotations.
 (* RESTORE, current client (restore in `finally`): after EVERY request - served from the cache, run successfully,
    or failed - cwd and argv are what they were before it; for every history and every starting state. *)
 Theorem C08_restore :
-  forall (C R : Type) (run : C -> option R) (hash : nat -> Z) (ops : list (op C)) (st : state C R),
+  forall (C R : Type) (run : C -> option R) (hash : nat -> Z) (K : Type) (keq : K -> K -> bool) (keyof : nat -> option C -> K) (ops : list (op C)) (st : state C R K),
   Forall (fun e => is_get (eop e) = true ->
                    cwd (after e) = cwd (before e) /\ argv (after e) = argv (before e))
-         (trace C R run hash true st ops).
+         (trace C R run hash K keq keyof true st ops).
 Proof. exact trace_restore. Qed.
 Print Assumptions C08_restore.
 
 (* hence a whole history of requests, file edits and new clients ends where it started *)
 Theorem C08_restore_history :
-  forall (C R : Type) (run : C -> option R) (hash : nat -> Z) (ops : list (op C)) (st : state C R),
+  forall (C R : Type) (run : C -> option R) (hash : nat -> Z) (K : Type) (keq : K -> K -> bool) (keyof : nat -> option C -> K) (ops : list (op C)) (st : state C R K),
   forallb (only_runs_and_files C) ops = true ->
-  cwd (final C R run hash true st ops) = cwd st /\ argv (final C R run hash true st ops) = argv st.
+  cwd (final C R run hash K keq keyof true st ops) = cwd st /\ argv (final C R run hash K keq keyof true st ops) = argv st.
 Proof. exact final_restore. Qed.
 Print Assumptions C08_restore_history.
 
 (* The client of the PINNED tree (restore only after a successful run) refutes the clause: one failing request
    leaves the caller in the source directory with sys.argv = ['', <input>, <output>]. *)
 Theorem C08_restore_pinned_refuted :
-  exists e, In e (trace nat nat (crun [0]) chash false (init (DUser 0) [AUser 0; AUser 1] []) [NewClient true; Get 0 7])
+  exists e, In e (ptrace [0] false (DUser 0) [AUser 0; AUser 1] [NewClient true; Get 0 7])
             /\ is_get (eop e) = true
             /\ cwd (after e) = DSrc /\ cwd (before e) = DUser 0
             /\ argv (after e) = [AEmpty; AIn 7; AOut 7%Z] /\ argv (before e) = [AUser 0; AUser 1].
@@ -39,27 +39,27 @@ Print Assumptions C08_restore_pinned_refuted.
 
 (* what the pinned client does guarantee: restore after every request that does not raise *)
 Theorem C08_restore_pinned_partial :
-  forall (C R : Type) (run : C -> option R) (hash : nat -> Z) (ops : list (op C)) (st : state C R),
+  forall (C R : Type) (run : C -> option R) (hash : nat -> Z) (K : Type) (keq : K -> K -> bool) (keyof : nat -> option C -> K) (ops : list (op C)) (st : state C R K),
   Forall (fun e => is_get (eop e) = true -> eout e <> Raised ->
                    cwd (after e) = cwd (before e) /\ argv (after e) = argv (before e))
-         (trace C R run hash false st ops).
+         (trace C R run hash K keq keyof false st ops).
 Proof. exact trace_restore_pinned_partial. Qed.
 Print Assumptions C08_restore_pinned_partial.
 
 (* command-line entry point (restore in `finally`): cwd is given back whether main() returns or raises, and the
    argument list it was started with is still in place *)
 Theorem C08_cli_restore :
-  forall (C R : Type) (run : C -> option R) (hash : nat -> Z) (fixed : bool) (ops : list (op C)) (st : state C R),
+  forall (C R : Type) (run : C -> option R) (hash : nat -> Z) (K : Type) (keq : K -> K -> bool) (keyof : nat -> option C -> K) (fixed : bool) (ops : list (op C)) (st : state C R K),
   Forall (fun e => forall p, eop e = Cli p ->
                    cwd (after e) = cwd (before e) /\ argv (after e) = [AUser 0; AIn p; AOut (hash p)])
-         (trace C R run hash fixed st ops).
+         (trace C R run hash K keq keyof fixed st ops).
 Proof. exact trace_cli_restore. Qed.
 Print Assumptions C08_cli_restore.
 
 (* NO CONTAMINATION in the model: a request changes nothing but the cache of the client it went through *)
 Theorem C08_get_frame :
-  forall (C R : Type) (run : C -> option R) (hash : nat -> Z) (st : state C R) (ci p : nat),
-  let st' := fst (client_get C R run hash true st ci p) in
+  forall (C R : Type) (run : C -> option R) (hash : nat -> Z) (K : Type) (keq : K -> K -> bool) (keyof : nat -> option C -> K) (st : state C R K) (ci p : nat),
+  let st' := fst (client_get C R run hash K keq keyof true st ci p) in
   cwd st' = cwd st /\ argv st' = argv st /\ files st' = files st
   /\ List.length (clients st') = List.length (clients st)
   /\ forall j, j <> ci -> nth_error (clients st') j = nth_error (clients st) j.
@@ -71,8 +71,7 @@ Print Assumptions C08_get_frame.
    request again on the same caching client -> the run of c0 comes back although the file holds c1. *)
 Theorem C08_cache_refines_run_refuted :
   forall fixed, exists e p r h,
-    In e (trace nat nat (crun [0; 1]) chash fixed (init (DUser 0) [] [])
-            [NewClient true; Write 0 0; Get 0 0; Write 0 1; Get 0 0])
+    In e (ptrace [0; 1] fixed (DUser 0) [] [NewClient true; Write 0 0; Get 0 0; Write 0 1; Get 0 0])
     /\ eop e = Get 0 p /\ eout e = Returned r h
     /\ expected nat nat (crun [0; 1]) (files (before e)) p = Some 1 /\ r = 0.
 Proof. exact cache_refines_refuted. Qed.
@@ -89,32 +88,56 @@ Theorem C08_cache_refines_run_partial :
   (forall ci p, In (Get ci p) ops -> In p ps) ->
   Forall (fun e => forall p, wpath C (eop e) = Some p ->
                    forall cl, In cl (clients (before e)) -> caching cl = true ->
-                   cache_lookup R (hash p) (cache cl) = None)
-         (trace C R run hash fixed (init d a f) ops) ->
+                   cache_lookup Z.eqb (hash p) (cache cl) = None)
+         (trace C R run hash Z Z.eqb (path_key hash) fixed (init d a f) ops) ->
   Forall (fun e => forall p r h, req_path C (eop e) = Some p -> eout e = Returned r h ->
                    expected C R run (files (before e)) p = Some r)
-         (trace C R run hash fixed (init d a f) ops).
+         (trace C R run hash Z Z.eqb (path_key hash) fixed (init d a f) ops).
 Proof. exact trace_refines_init. Qed.
 Print Assumptions C08_cache_refines_run_partial.
 
 (* with caching off the clause holds with no hypothesis at all: any hash, files rewritten at will *)
 Theorem C08_nocache_refines_run :
-  forall (C R : Type) (run : C -> option R) (hash : nat -> Z) (fixed : bool) (ops : list (op C)) (st : state C R),
+  forall (C R : Type) (run : C -> option R) (hash : nat -> Z) (K : Type) (keq : K -> K -> bool) (keyof : nat -> option C -> K) (fixed : bool) (ops : list (op C)) (st : state C R K),
   (forall cl, In cl (clients st) -> caching cl = false) ->
   (forall b, In (NewClient b) ops -> b = false) ->
   Forall (fun e => forall p r h, req_path C (eop e) = Some p -> eout e = Returned r h ->
                    expected C R run (files (before e)) p = Some r)
-         (trace C R run hash fixed st ops).
+         (trace C R run hash K keq keyof fixed st ops).
 Proof. exact trace_refines_nocache. Qed.
 Print Assumptions C08_nocache_refines_run.
+
+(* THE REPAIR: a cache whose key determines the run - e.g. the path hash TOGETHER WITH the content of the file at
+   request time - satisfies the clause for every history, with files rewritten at will and any hash *)
+Theorem C08_sound_key_refines_run :
+  forall (C R : Type) (run : C -> option R) (hash : nat -> Z) (K : Type) (keq : K -> K -> bool) (keyof : nat -> option C -> K) (fixed : bool),
+  (forall p c p' c', keq (keyof p c) (keyof p' c') = true ->
+                     match c with Some x => run x | None => None end = match c' with Some x => run x | None => None end) ->
+  forall (ops : list (op C)) (d : dir) (a : list arg) (f : fs C),
+  Forall (fun e => forall p r h, req_path C (eop e) = Some p -> eout e = Returned r h ->
+                   expected C R run (files (before e)) p = Some r)
+         (trace C R run hash K keq keyof fixed (init d a f) ops).
+Proof. exact trace_refines_sound_key_init. Qed.
+Print Assumptions C08_sound_key_refines_run.
+
+Theorem C08_content_key_refines_run :
+  forall (C R : Type) (run : C -> option R) (hash : nat -> Z) (ceq : C -> C -> bool) (fixed : bool),
+  (forall a b, ceq a b = true -> a = b) ->
+  forall (ops : list (op C)) (d : dir) (a : list arg) (f : fs C),
+  Forall (fun e => forall p r h, req_path C (eop e) = Some p -> eout e = Returned r h ->
+                   expected C R run (files (before e)) p = Some r)
+         (trace C R run hash (Z * option C) (content_keq ceq) (content_key hash) fixed (init d a f) ops).
+Proof. exact trace_refines_content_key. Qed.
+Print Assumptions C08_content_key_refines_run.
 
 (* PURE FUNCTION OF THE INPUT: two requests, anywhere in any two safe histories (different lengths, clients,
    working directories, argv, other files), whose files hold the same content return the same result. *)
 Theorem C08_result_function_of_content :
-  forall (C R : Type) (run : C -> option R) (hash : nat -> Z) fixed1 fixed2 ps1 ps2 (st1 st2 : state C R) ops1 ops2
+  forall (C R : Type) (run : C -> option R) (hash : nat -> Z) fixed1 fixed2 ps1 ps2 (st1 st2 : state C R Z) ops1 ops2
          e1 e2 p1 p2 r1 r2 h1 h2,
   safe_history C R run hash fixed1 ps1 st1 ops1 -> safe_history C R run hash fixed2 ps2 st2 ops2 ->
-  In e1 (trace C R run hash fixed1 st1 ops1) -> In e2 (trace C R run hash fixed2 st2 ops2) ->
+  In e1 (trace C R run hash Z Z.eqb (path_key hash) fixed1 st1 ops1) ->
+  In e2 (trace C R run hash Z Z.eqb (path_key hash) fixed2 st2 ops2) ->
   req_path C (eop e1) = Some p1 -> req_path C (eop e2) = Some p2 ->
   eout e1 = Returned r1 h1 -> eout e2 = Returned r2 h2 ->
   fs_lookup p1 (files (before e1)) = fs_lookup p2 (files (before e2)) ->
@@ -149,7 +172,7 @@ Print Assumptions C08_memo_table_ok.
 Theorem C08_checkers_sound :
   forall fixed okc d a ops os,
   session_check fixed okc d a ops os = [] ->
-  steps_ok okc [] (trace nat nat (crun okc) chash fixed (init d a []) ops) os.
+  steps_ok okc [] (ptrace okc fixed d a ops) os.
 Proof. exact session_check_sound. Qed.
 Print Assumptions C08_checkers_sound.
 
@@ -171,8 +194,7 @@ Print Assumptions C08_refines_checker_sound.
 (* a history with failing and successful requests on which the restore theorem speaks (3 requests) *)
 Example C08_restore_example :
   List.length (filter (fun e => is_get (eop e))
-            (trace nat nat (crun [0]) chash true (init (DUser 3) [AUser 0] [])
-               [NewClient true; Get 0 7; Write 1 0; Get 0 1; Get 0 1])) = 3.
+            (ptrace [0] true (DUser 3) [AUser 0] [NewClient true; Get 0 7; Write 1 0; Get 0 1; Get 0 1])) = 3.
 Proof. vm_compute. reflexivity. Qed.
 
 (* the hypotheses of the partial refinement theorem are satisfiable by a history that rewrites files (before they
@@ -183,9 +205,9 @@ Example C08_refines_example :
   /\ (forall ci p, In (Get ci p) ops -> In p [0; 1])
   /\ Forall (fun e => forall p, wpath nat (eop e) = Some p ->
                       forall cl, In cl (clients (before e)) -> caching cl = true ->
-                      cache_lookup nat (chash p) (cache cl) = None)
-            (trace nat nat (crun [0; 1]) chash true (init DSrc [] []) ops)
-  /\ map (@eout nat nat) (trace nat nat (crun [0; 1]) chash true (init DSrc [] []) ops)
+                      cache_lookup Z.eqb (chash p) (cache cl) = None)
+            (ptrace [0; 1] true DSrc [] ops)
+  /\ map (@eout nat nat Z) (ptrace [0; 1] true DSrc [] ops)
      = [Done; Done; Done; Returned 1 false; Done; Returned 0 false; Returned 1 true].
 Proof.
   simpl. split; [|split; [|split]].
@@ -195,6 +217,14 @@ Proof.
       intros cl Hcl; repeat (destruct Hcl as [Hcl|Hcl]; [subst cl; simpl; intros _; reflexivity|]); destruct Hcl.
   - vm_compute. reflexivity.
 Qed.
+
+(* the repaired (content-keyed) client on the stale witness: the second request runs the new content *)
+Example C08_content_key_example :
+  (forall a b, Nat.eqb a b = true -> a = b)
+  /\ map (@eout nat nat (Z * option nat))
+         (ctrace [0; 1] true (DUser 0) [] [NewClient true; Write 0 0; Get 0 0; Write 0 1; Get 0 0; Write 0 0; Get 0 0])
+     = [Done; Done; Returned 0 false; Done; Returned 1 false; Done; Returned 0 true].
+Proof. split; [intros a b H; now apply Nat.eqb_eq|vm_compute; reflexivity]. Qed.
 
 (* a function that respects key equality although the keys are not identical (1 == 1.0 in Python) *)
 Example C08_memo_example :
